@@ -9,6 +9,10 @@ import (
 	"time"
 
 	"github.com/milvus-io/milvus-proto/go-api/v2/commonpb"
+	"github.com/milvus-io/milvus-proto/go-api/v2/msgpb"
+	"github.com/milvus-io/milvus/pkg/util/tsoutil"
+
+	"github.com/zilliztech/milvus-cdc/core/reader"
 )
 
 func mkPack(st *streamDef, idx int, begin uint64, kinds ...string) *packDef {
@@ -131,5 +135,102 @@ func TestFinding_C04_PartitionBarrierUndersized(t *testing.T) {
 		fmt.Println("FINDING-PRESENT F-C04-partition-barrier-undersized")
 	} else {
 		fmt.Println("FINDING-ABSENT F-C04-partition-barrier-undersized")
+	}
+}
+
+// F-C03-resume-order: two collections share the downstream channel tgt-dml_0. Before the stop collection B got further than
+// collection A (its later packs raised the clock of the channel). After the stop only A is resumed - or A first - from its
+// checkpoint: the channel clock restarts at the time of A's checkpoint, below the closing ticks already emitted for B.
+func TestFinding_C03_ResumeOrder(t *testing.T) {
+	const id = "F-C03-resume-order"
+	mk := func(w *world, i int, from, n int, cur uint64, tag *int64) (*collDef, uint64) {
+		c := w.addCollection(i, "default", []int{0}, []int{0}, []*partDef{{name: "_default"}}, false)
+		st := c.streams[0]
+		st.posKd = "pchannel"
+		for pi := from; pi < from+n; pi++ {
+			p := &packDef{stream: st, idx: pi, id: []byte(fmt.Sprintf("c%dp%d", i, pi)), begin: cur}
+			*tag++
+			p.msgs = append(p.msgs, &msgDef{kind: "insert", ts: cur + 1, tag: *tag, rows: 1, part: c.parts[0], pack: p})
+			cur += 4 << 18
+			p.end = cur
+			st.script = append(st.script, p)
+		}
+		return c, cur
+	}
+	w1 := newWorld(worldOpts{ttIntervalMs: 10000000, bufSize: 4})
+	tag := int64(0)
+	base := ts(1700000000000, 0)
+	a, curA := mk(w1, 0, 0, 1, base, &tag)
+	b, _ := mk(w1, 1, 0, 3, base, &tag)
+	for _, c := range []*collDef{a, b} {
+		if err := w1.start(c); err != nil {
+			t.Fatalf("VERIF-TROUBLE start: %v", err)
+		}
+		if !w1.waitRegistered(c.streams[0], 10*time.Second) {
+			t.Fatalf("VERIF-TROUBLE not registered")
+		}
+	}
+	w1.feedNext(a.streams[0])
+	for i := 0; i < 3; i++ {
+		w1.feedNext(b.streams[0])
+	}
+	if bz, ok := w1.quiesce(20 * time.Second); !ok {
+		t.Fatalf("VERIF-TROUBLE quiesce: %s", bz)
+	}
+	out1, _ := w1.snapshot()
+	var lastTick uint64
+	var cpA *c03Checkpoint
+	for _, o := range out1 {
+		mp := o.rm.MsgPack
+		if n := len(mp.Msgs); n > 0 && mp.Msgs[n-1].Type() == commonpb.MsgType_TimeTick && mp.Msgs[n-1].EndTs() > lastTick {
+			lastTick = mp.Msgs[n-1].EndTs()
+		}
+		if o.rm.CollectionID == a.id {
+			ms, _ := tsoutil.ParseHybridTs(mp.EndTs)
+			cpA = &c03Checkpoint{msgID: append([]byte(nil), mp.EndPositions[0].MsgID...), timeMs: ms, sourceTs: o.rm.SourceEndTs}
+		}
+	}
+	w1.close()
+	reader.ResetTSManagerForVerif()
+	if cpA == nil || lastTick == 0 {
+		t.Fatalf("VERIF-TROUBLE nothing emitted before the stop")
+	}
+	w2 := newWorld(worldOpts{ttIntervalMs: 10000000, bufSize: 4})
+	defer w2.close()
+	a2, _ := mk(w2, 0, 100, 1, curA, &tag)
+	st := a2.streams[0]
+	positionTs := tsoutil.ComposeTS(cpA.timeMs+1, 0)
+	var startTs map[string]uint64
+	if cpA.sourceTs > 0 && cpA.sourceTs < positionTs {
+		startTs = map[string]uint64{st.srcP: positionTs}
+		positionTs = cpA.sourceTs
+	}
+	seek := []*msgpb.MsgPosition{{ChannelName: st.srcP, MsgID: cpA.msgID, Timestamp: positionTs}}
+	if err := w2.mgr.StartReadCollection(w2.taskCtx(), (&modelDB{a2.db}).info(), a2.info, seek, startTs); err != nil {
+		t.Fatalf("VERIF-TROUBLE resume: %v", err)
+	}
+	if !w2.waitRegistered(st, 10*time.Second) {
+		t.Fatalf("VERIF-TROUBLE not registered after the resume")
+	}
+	w2.feedNext(st)
+	if bz, ok := w2.quiesce(20 * time.Second); !ok {
+		t.Fatalf("VERIF-TROUBLE quiesce: %s", bz)
+	}
+	out2, _ := w2.snapshot()
+	back := false
+	for _, o := range out2 {
+		mp := o.rm.MsgPack
+		if n := len(mp.Msgs); n > 0 && mp.Msgs[n-1].Type() == commonpb.MsgType_TimeTick && mp.Msgs[n-1].EndTs() < lastTick {
+			fmt.Printf("closing tick %d after the resume, %d had been emitted on the channel before it\n", mp.Msgs[n-1].EndTs(), lastTick)
+			back = true
+		}
+	}
+	if len(out2) == 0 {
+		t.Fatalf("VERIF-TROUBLE nothing emitted after the resume")
+	}
+	if back {
+		fmt.Println("FINDING-PRESENT " + id)
+	} else {
+		fmt.Println("FINDING-ABSENT " + id)
 	}
 }
